@@ -160,3 +160,39 @@ Proof.
   intros fx st H. unfold msec_to_expire, tl_msec_to_expire, size. rewrite H. cbn [length Z.of_nat Z.eqb fst].
   unfold narrow_timeout. destruct (f_clamp fx); vm_compute; reflexivity.
 Qed.
+
+(* ---------------------------------------------------------------- the queries *)
+(* repaired code: an expiry time computed at a positive clock is positive, so `expire_time_get > 0' really
+   means "pending" (as found, now + duration = 2^64 gives 0: C09_is_running_refuted) *)
+Lemma expire_of_fixed_pos : forall now d, 0 < now <= LT_UINT64_MAX -> u64 d -> 0 < expire_of fixed now d.
+Proof.
+  intros now d Hn Hd. destruct (expire_of_fixed now d) as [E _]; [unfold u64; lia|assumption|].
+  rewrite E. unfold u64, LT_UINT64_MAX in *. lia.
+Qed.
+
+(* is_running is non-zero exactly when expire_time_get is; a slot that is not ACTIVE (never used, deleted,
+   expired and queued, dispatched) answers 0 to all three queries; an ACTIVE slot answers with its heap
+   object's expire_time, the time left on the clock (0 once it is overdue), and "running" *)
+Lemma queries_agree : forall st h,
+  (is_running st h = 1 <-> expire_time_get st h > 0) /\
+  (is_running st h = 0 <-> expire_time_get st h <= 0) /\
+  (forall i s, timer_from_handle st h = LOk i s -> s_state s <> LT_ENTRY_ACTIVE ->
+     expire_time_get st h = 0 /\ is_running st h = 0 /\ fst (time_remaining st h) = 0) /\
+  (forall i s tm, timer_from_handle st h = LOk i s -> s_state s = LT_ENTRY_ACTIVE -> s_th s = Some tm -> 0 < t_exp tm ->
+     expire_time_get st h = t_exp tm /\ is_running st h = 1 /\
+     fst (time_remaining st h) = Z.max 0 (t_exp tm - clk st)) /\
+  (forall e, timer_from_handle st h = LErr e ->
+     expire_time_get st h = 0 /\ is_running st h = 0 /\ fst (time_remaining st h) = 0).
+Proof.
+  intros st h. unfold is_running.
+  split; [destruct (expire_time_get st h >? 0) eqn:E; [apply Z.gtb_lt in E|rewrite Z.gtb_ltb in E; apply Z.ltb_ge in E]; split; intros; try lia; discriminate|].
+  split; [destruct (expire_time_get st h >? 0) eqn:E; [apply Z.gtb_lt in E|rewrite Z.gtb_ltb in E; apply Z.ltb_ge in E]; split; intros; try lia; discriminate|].
+  unfold expire_time_get, time_remaining. split; [|split].
+  - intros i s L N. rewrite L.
+    replace (s_state s =? LT_ENTRY_ACTIVE) with false by (symmetry; apply Z.eqb_neq; assumption). cbn [negb fst].
+    split; [reflexivity|]. split; reflexivity.
+  - intros i s tm L A T P. rewrite L, A, T. rewrite Z.eqb_refl. cbn [negb].
+    split; [reflexivity|]. split; [replace (t_exp tm >? 0) with true by (symmetry; apply Z.gtb_lt; lia); reflexivity|].
+    unfold read_clock. destruct (t_exp tm <? clk st) eqn:E; cbn [fst]; [apply Z.ltb_lt in E|apply Z.ltb_ge in E]; lia.
+  - intros e L. rewrite L. cbn [fst]. split; [reflexivity|]. split; reflexivity.
+Qed.
